@@ -76,7 +76,11 @@ QRich  == QSmall \cup {Q("add", E - 2, -1, 0, ""), Q("add", E - 3, 1, 0, ""), Q(
                        Q("dt_bump", E - 2, 1, 0, "p"), Q("bump0", E - 2, 1, 0, "p"), Q("clock_diff", E - 5, 0, E + 2, ""),
                        Q("drange", E - 1, 0, E - 2, ""), Q("drange", E + 1, 0, E - 3, ""), Q("drange", E + 1, 0, E + 1, ""),
                        Q("drange", E - 2, 0, E + 5, ""), Q("drange", E - 4, 0, E - 4, ""),
-                       Q("add", E - 1, 0, 0, ""),
+                       \* the own convention on the Sunday; forwards beyond the last day of the narrow ranges (E + 1, E + 5)
+                       Q("add", E - 1, 0, 0, ""), Q("add", E, 3, 0, ""), Q("add", E + 1, 5, 0, "p")}
+\* the generators (KeepHist) add: the day carried by other realisations (the mechanism level never reads r, so the model
+\* checker has nothing to learn from them) and more questions that leave the narrow ranges at either end
+QGen   == QRich \cup {
                        \* a stamp with a time of day / a date as the day: a business day of every menu (the Wednesday), the Saturday, a day the menus change
                        QR("is_bday", E - 5, 0, 0, "", "tod"), QR("is_bday", E - 2, 0, 0, "", "tstod"), QR("is_bday", E + 1, 0, 0, "", "date"),
                        QR("adjust", E - 1, 0, 0, "", "tod"), QR("add", E - 5, 2, 0, "f", "tod"),
@@ -88,9 +92,9 @@ QRich  == QSmall \cup {Q("add", E - 2, -1, 0, ""), Q("add", E - 3, 1, 0, ""), Q(
                        QR("drange", E - 5, 0, E + 2, "", "tod"), QR("drange", E - 2, 0, E + 1, "", "date"), QR("clock_diff", E - 5, 0, E + 2, "", "tstod"),
                        \* backwards from / forwards to the ends of the narrow ranges (first day E - 4 or E - 2, last day E + 1 or E + 5)
                        Q("add", E - 3, -3, 0, ""), Q("add", E - 2, -4, 0, "f"), Q("add", E - 1, -6, 0, "p"), Q("add", E + 1, -8, 0, "f"),
-                       Q("add", E, 3, 0, ""), Q("add", E + 1, 5, 0, "p"), Q("add", E + 2, 2, 0, "f"), Q("dt_bump", E - 3, -2, 0, "f"),
+                       Q("add", E + 2, 2, 0, "f"), Q("dt_bump", E - 3, -2, 0, "f"),
                        Q("add_inv", E - 3, -3, 0, "f"), Q("bdays_add", E - 3, -3, 0, "f"), Q("add_split", E - 3, -3, 0, "p")}
-QM == IF Rich THEN QRich ELSE QSmall
+QM == IF KeepHist THEN QGen ELSE IF Rich THEN QRich ELSE QSmall
 
 \* ---- helpers ----------------------------------------------------------------------------------
 NObj == Len(st.heap)
